@@ -488,21 +488,42 @@ Fixpoint has_dup (l : list text) : bool :=
 Fixpoint number_from (i : nat) {A} (l : list A) : list (nat * A) :=
   match l with [] => [] | x :: tl => (i, x) :: number_from (S i) tl end.
 
+Fixpoint digits_of_nat_aux (fuel n : nat) (acc : text) : text :=
+  match fuel with
+  | O => acc
+  | S f => let acc' := (48 + N.of_nat (n mod 10)) :: acc in
+           if (n / 10 =? 0)%nat then acc' else digits_of_nat_aux f (n / 10) acc'
+  end.
+Definition digits_of_nat (n : nat) : text := digits_of_nat_aux (S n) n [].
+
+(* the records of a table under given column names *)
+Definition frame_of_records (header : list text) (rows : list (list text)) : rres frame :=
+  let n := length header in
+  match rows with
+  | r0 :: _ => if (n <? length r0)%nat then RUnmodelled else        (* implicit index columns *)
+      if existsb (fun r => (n <? length r)%nat) rows then RErr 2    (* ParserError *)
+      else if existsb (col_is_weird rows) (seq 0 n) then RUnmodelled
+      else ROk (mkFrame header
+                  (number_from 0 (map (fun r => map (fun j => cell_of (col_is_str rows j) (nth_tok r j))
+                                                     (seq 0 n)) rows)))
+  | [] => ROk (mkFrame header [])
+  end.
+
+(* header='infer': the first record gives the column names *)
 Definition read_frame (content : text) : rres frame :=
   match records content with
   | [] => RErr 2                                        (* EmptyDataError: No columns to parse *)
   | header :: rows =>
-      let n := length header in
       if has_dup header then RUnmodelled                (* pandas mangles duplicate names *)
-      else match rows with
-           | r0 :: _ => if (n <? length r0)%nat then RUnmodelled else        (* implicit index columns *)
-               if existsb (fun r => (n <? length r)%nat) rows then RErr 2    (* ParserError *)
-               else if existsb (col_is_weird rows) (seq 0 n) then RUnmodelled
-               else ROk (mkFrame header
-                           (number_from 0 (map (fun r => map (fun j => cell_of (col_is_str rows j) (nth_tok r j))
-                                                              (seq 0 n)) rows)))
-           | [] => ROk (mkFrame header [])
-           end
+      else frame_of_records header rows
+  end.
+
+(* header=None ($TABLE NOHEADER / NOLABEL): every record is data, the columns are numbered 0, 1, ... after the
+   first record *)
+Definition read_frame_nolabel (content : text) : rres frame :=
+  match records content with
+  | [] => RErr 2
+  | r0 :: rest => frame_of_records (map digits_of_nat (seq 0 (length r0))) (r0 :: rest)
   end.
 
 (* ------------------------------------------------------------------------------------------------ *)
@@ -529,14 +550,14 @@ Record table := mkTable {
 }.
 
 (* content: the lines of one table (first the title line unless notitle) *)
-Definition parse_table (sfx : suffix) (notitle : bool) (content : list text) : rres table :=
+Definition parse_table (sfx : suffix) (notitle nolabel : bool) (content : list text) : rres table :=
   let '(tline, body) := if notitle then (None, content)
                         else match content with
                              | l :: b => (Some l, b)
                              | [] => (None, [])        (* unreachable: the file is not empty *)
                              end in
   let fr := match sfx with
-            | SOther => read_frame (concat (drop_repeated_headers body))
+            | SOther => (if nolabel then read_frame_nolabel else read_frame) (concat (drop_repeated_headers body))
             | _ => read_frame (sub_obj (concat body))
             end in
   match fr with
@@ -567,16 +588,16 @@ Fixpoint sequence {A} (l : list (rres A)) : rres (list A) :=
   end.
 
 (* NONMEMTableFile(path, notitle, nolabel): [raw] is the content of the file *)
-Definition read_table_file (sfx : suffix) (notitle : bool) (raw : text) : rres (list table) :=
+Definition read_table_file (sfx : suffix) (notitle nolabel : bool) (raw : text) : rres (list table) :=
   match raw with
   | [] => RErr 1                                         (* OSError("Empty table file") *)
   | _ :: _ =>
       let t := universal_newlines raw in
       if notitle then
         (* the suffix is not passed on this path: generic table *)
-        match parse_table SOther true (splitlines t) with
+        match parse_table SOther true nolabel (splitlines t) with
         | ROk tb => ROk [tb] | RErr k => RErr k | RUnmodelled => RUnmodelled end
-      else sequence (map (parse_table sfx false) (split_tables (lines t)))
+      else sequence (map (parse_table sfx false nolabel) (split_tables (lines t)))
   end.
 
 (* ------------------------------------------------------------------------------------------------ *)
@@ -792,14 +813,12 @@ Fixpoint set_first_label (lab : nat) (upd : list cell -> list cell) (rows : list
 
 Definition get_iter_df (g : frame) : rres frame :=
   let its := col_cells g s_ITERATION in
-  let has0 := existsb (cell_is 0%Z) its in
+  let hasnonneg := existsb cell_ge0 its in
   let hasfinal := existsb (cell_is code_final) its in
-  if negb has0 && hasfinal then
-    (* df = df[iters == -1e9]; df.at[0, 'ITERATION'] = 0   (label 0: sets it if present, else ENLARGES) *)
-    let sel := rows_with g code_final in
-    if existsb (fun ir => Nat.eqb (fst ir) 0) sel
-    then ROk (mkFrame (f_cols g) (set_first_label 0 (fun r => set_iter g r 0) sel))
-    else ROk (mkFrame (f_cols g) (sel ++ [(O, nan_row_with_iter g 0)]))
+  if negb hasnonneg && hasfinal then
+    (* df = df[iters == -1e9].reset_index(drop=True); df.at[0, 'ITERATION'] = 0 *)
+    let sel := number_from 0 (map snd (rows_with g code_final)) in
+    ROk (mkFrame (f_cols g) (set_first_label 0 (fun r => set_iter g r 0) sel))
   else
     let final_obj := match last_opt (rows_with g code_final) with
                      | Some (_, r) => obj_cell g r
@@ -1062,7 +1081,7 @@ Definition render_wfile (ts : list wtable) : text := concat (map render_wtable t
 (** * Well-formed written tables (executable) and the frame / tables they denote — the right-hand side of
       parse (render x) = x *)
 
-Definition tokchar (c : N) : bool := negb (is_delim c) && negb (c =? c_nl) && negb (c =? c_cr).
+Definition tokchar (c : N) : bool := negb (is_delim c) && negb (is_splitlines_sep c).
 Definition good_tok (t : text) : bool := match t with [] => false | _ :: _ => forallb tokchar t end.
 Definition all_digits (t : text) : bool := match t with [] => false | _ :: _ => forallb is_digit t end.
 
@@ -1343,7 +1362,7 @@ Definition parse_matrix (raw : option text) (nm : list (text * text)) (table_num
   match raw with
   | None => ROk None
   | Some t =>
-      match read_table_file SCov false t with
+      match read_table_file SCov false false t with
       | RErr 1%N => ROk None
       | RErr k => RErr k
       | RUnmodelled => RUnmodelled
@@ -1382,14 +1401,12 @@ Inductive run_outcome :=
 | RunFailed                             (* broken ext file: ofv NaN, estimates NaN *)
 | RunOk (r : run_results).
 
-(* values_writable: whether DataFrame.values hands out a writable array (pandas < 3) or a read-only view
-   (pandas >= 3, copy-on-write) — np.fill_diagonal(cor.values, 1) raises ValueError on the latter *)
 Definition read_run (ext : option text) (pfix : list (text * bool)) (nm : list (text * text))
-           (covstatus : bool) (cov cor coi : option text) (values_writable : bool) : rres run_outcome :=
+           (covstatus : bool) (cov cor coi : option text) : rres run_outcome :=
   match ext with
   | None => ROk RunNone
   | Some raw =>
-      match read_table_file SExt false raw with
+      match read_table_file SExt false false raw with
       | RErr 1%N => ROk RunNone
       | RErr 2%N => ROk RunFailed
       | RErr k => RErr k
@@ -1405,7 +1422,6 @@ Definition read_run (ext : option text) (pfix : list (text * bool)) (nm : list (
             if covstatus && negb abort then
               rbind (parse_matrix cov nm tn) (fun mcov =>
               rbind (parse_matrix cor nm tn) (fun mcor =>
-              if match mcor with Some _ => negb values_writable | None => false end then RErr 2%N else
               rbind (parse_matrix coi nm tn) (fun mcoi =>
                 ROk (RunOk (mkRun er mcov
                               (option_map (fun m => mkMatrix (m_rows m) (m_cols m) (fill_diag_one 0 (m_vals m))) mcor)
@@ -1425,14 +1441,6 @@ Record phi_results := mkPhiRes {
   pr_iec : list (list (list cell))
 }.
 
-Fixpoint digits_of_nat_aux (fuel n : nat) (acc : text) : text :=
-  match fuel with
-  | O => acc
-  | S f => let acc' := (48 + N.of_nat (n mod 10)) :: acc in
-           if (n / 10 =? 0)%nat then acc' else digits_of_nat_aux f (n / 10) acc'
-  end.
-Definition digits_of_nat (n : nat) : text := digits_of_nat_aux (S n) n [].
-
 Definition paren_name (pre : text) (i : nat) : text := pre ++ [40] ++ digits_of_nat i ++ [41].
 
 Fixpoint rsequence {A} (l : list (option A)) : option (list A) :=
@@ -1447,7 +1455,7 @@ Definition parse_phi (raw : option text) (nm : list (text * text)) (rv_names : l
   match raw with
   | None => ROk None
   | Some t =>
-      rbind (read_table_file SPhi false t) (fun tables =>
+      rbind (read_table_file SPhi false false t) (fun tables =>
         match last_opt (filter (fun tb => match design_of tb with None => true | Some _ => false end) tables) with
         | None => ROk None
         | Some tb =>
@@ -1486,9 +1494,6 @@ Definition parse_phi (raw : option text) (nm : list (text * text)) (rv_names : l
 (* ------------------------------------------------------------------------------------------------ *)
 (** * Guards of the "objective value comes from the designated row" theorem (executable) *)
 
-(* the table prints iteration 0 *)
-Definition g_has_iter0 (g : frame) : bool := existsb (cell_is 0%Z) (col_cells g s_ITERATION).
-
 (* the designated final row exists and carries the same OBJ as the last printed (non-negative) iteration *)
 Definition g_final_obj_eq_last (g : frame) : bool :=
   match last_opt (rows_with g code_final),
@@ -1497,12 +1502,6 @@ Definition g_final_obj_eq_last (g : frame) : bool :=
   | _, _ => false
   end.
 
-(* without iteration 0: the final row is the first row of the table (label 0) *)
-Definition g_final_first (g : frame) : bool :=
-  match f_rows g with
-  | (i, r) :: _ => Nat.eqb i 0 && cell_is code_final (iter_cell g r)
-  | [] => false
-  end.
 
 (* ------------------------------------------------------------------------------------------------ *)
 (** * Well-formed written titles and files, and the tables they denote *)
@@ -1563,23 +1562,50 @@ Definition wstr_no_J (x : wnum) : bool := match x with WStr t => no_J t | _ => t
 Definition with_repeat (t : wtable) (k : nat) : wtable :=
   mkWTable (w_title t) (w_labels t) (w_rows t) (w_lastwide t) k (w_showlabels t).
 
-(* one table of a file with the given suffix *)
-Definition wtable_ok (sfx : suffix) (t : wtable) : bool :=
-  match w_title t with Some ti => wtitle_ok ti | None => false end &&
-  wbody_ok (with_repeat t 0) &&
+(* a table body without label line ($TABLE ... NOLABEL / NOHEADER), read with nolabel *)
+Definition wrows_ok (t : wtable) : bool :=
+  negb (w_showlabels t) &&
+  match w_labels t with [] => false | _ :: _ => true end &&
+  match w_rows t with [] => false | _ :: _ => true end &&
+  forallb (fun r => Nat.eqb (length r) (length (w_labels t)) && row_ok (w_lastwide t) r) (w_rows t) &&
+  forallb (col_homogeneous (w_rows t)) (seq 0 (length (w_labels t))).
+
+(* header=None: the columns are numbered *)
+Definition frame_of_wtable_nolabel (t : wtable) : frame :=
+  mkFrame (map digits_of_nat (seq 0 (length (w_labels t)))) (number_from 0 (map (map wcell) (w_rows t))).
+
+(* nolabel only reaches the generic ($TABLE) reader *)
+Definition nolabel_effective (sfx : suffix) (nolabel : bool) : bool :=
+  match sfx with SOther => nolabel | _ => false end.
+
+Definition first_label_alpha (t : wtable) : bool :=
+  match w_labels t with l :: _ => starts_alpha l | [] => false end.
+
+(* the body of one table of a file with the given suffix, read with / without nolabel *)
+Definition wtable_body_ok (sfx : suffix) (nolabel : bool) (t : wtable) : bool :=
   match sfx with
-  | SOther => match w_labels t with l :: _ => starts_alpha l | [] => false end &&
+  | SOther => (if nolabel then wrows_ok t else wbody_ok (with_repeat t 0) && first_label_alpha t) &&
               forallb first_cell_numeric (w_rows t)
-  | _ => Nat.eqb (w_repeat t) 0 && labels_obj_ok (w_labels t) &&
+  | _ => wbody_ok (with_repeat t 0) && Nat.eqb (w_repeat t) 0 && labels_obj_ok (w_labels t) &&
          forallb (forallb wstr_no_J) (w_rows t)
   end.
 
-Definition wfile_ok (sfx : suffix) (ts : list wtable) : bool :=
-  match ts with [] => false | _ :: _ => forallb (wtable_ok sfx) ts end.
+Definition wtable_ok (sfx : suffix) (nolabel : bool) (t : wtable) : bool :=
+  match w_title t with Some ti => wtitle_ok ti | None => false end && wtable_body_ok sfx nolabel t.
 
-Definition table_of_wtable (sfx : suffix) (t : wtable) : table :=
-  mkTable (option_map title_of_wtitle (w_title t))
-          (mkFrame (labels_as_read sfx (w_labels t)) (number_from 0 (map (map wcell) (w_rows t)))).
+Definition wfile_ok (sfx : suffix) (nolabel : bool) (ts : list wtable) : bool :=
+  match ts with [] => false | _ :: _ => forallb (wtable_ok sfx nolabel) ts end.
+
+Definition frame_as_read (sfx : suffix) (nolabel : bool) (t : wtable) : frame :=
+  if nolabel_effective sfx nolabel then frame_of_wtable_nolabel t
+  else mkFrame (labels_as_read sfx (w_labels t)) (number_from 0 (map (map wcell) (w_rows t))).
+
+Definition table_of_wtable (sfx : suffix) (nolabel : bool) (t : wtable) : table :=
+  mkTable (option_map title_of_wtitle (w_title t)) (frame_as_read sfx nolabel t).
+
+(* $TABLE ... NOTITLE (label line, no title) and NOHEADER (neither): one table, read with notitle *)
+Definition wtable_notitle_ok (nolabel : bool) (t : wtable) : bool :=
+  match w_title t with None => true | Some _ => false end && wtable_body_ok SOther nolabel t.
 
 (* the same file with Windows line ends *)
 Definition crlf (t : text) : text := flat_map (fun c => if c =? c_nl then [c_cr; c_nl] else [c]) t.
